@@ -3,7 +3,9 @@
 
    Model: Model/Signal.v.  [run fx fs fr beh fuel (init cap) ops] executes the top-level
    operations [ops] (init/start/start_oneshot/stop/close of handles, delivery of a
-   signal by the kernel, uv_run(NOWAIT) of a loop); [beh k] is what the k-th signal
+   signal by the kernel, uv_run(NOWAIT) of a loop, uv_stop, uv_signal_init on the memory
+   of a closed handle, and [OFork l]: from here on the process is the child of a fork()
+   and has called uv_loop_fork(loop l)); [beh k] is what the k-th signal
    callback does (any list of the same operations); [cap] is the capacity of the
    self-pipes; [fuel] bounds the rounds of uv__signal_event.  [tr s] is the trace,
    newest event first.  Three switches name the variant of the code:
@@ -65,7 +67,9 @@ Print Assumptions C13_caught_minus_dispatched.
    (1) deliveries = consumptions followed by messages in flight, in order: the k-th delivery
        to h is paired with the k-th consumption by h's loop; every delivery is consumed at most
        once; nothing is consumed (so no callback happens) without a delivery;
-   (2) callbacks are among the consumptions, and the counts add up;
+   (2) callbacks are among the consumptions, and the counts add up ([cbs_since_fork] = the number of
+       callbacks on h, counted from the last uv_loop_fork() of its loop in a forked child if any:
+       cbs_since_fork_count);
    (3) a consumption is a callback unless the handle does not watch the message's signal at
        that moment (it was stopped / closed / restarted on another signal since: signum only
        changes in uv__signal_stop and uv__signal_start), see also the dispatch step below.
@@ -80,7 +84,7 @@ Theorem C13_every_watcher_once :
   (forall fx fs fr beh fuel cap ops h,
    let s := run fx fs fr beh fuel (init cap) ops in
    lost s = 0 ->
-   count_cb h (tr s) <= length (consumed (tr s) h) /\
+   cbs_since_fork (tr s) h <= length (consumed (tr s) h) /\
    length (consumed (tr s) h) + length (psig s h) = length (delivered (tr s) h))
   /\
   (forall fx fs fr beh s h sig r,
@@ -371,6 +375,69 @@ Theorem C13_disposition_partial :
   (race s = false -> (exists h, watches s h sig) -> is_handler (disp_of s sig) = true).
 Proof. exact disposition_partial. Qed.
 Print Assumptions C13_disposition_partial.
+
+(* ---- fork() + uv_loop_fork(), uv_stop(), re-use of a closed handle's memory ---- *)
+
+(* uv_loop_fork in the child: a new, empty signal pipe for the loop and zeroed counters for its
+   handles; tree, dispositions, what every handle watches and the other loops' pipes are inherited *)
+Theorem C13_fork_fresh_pipe :
+  forall fx fs fr beh fuel s l,
+  let s' := top fx fs fr beh fuel s (OFork l) in
+  pipe_of s' l = [] /\
+  (forall l', l' <> l -> pipe_of s' l' = pipe_of s l') /\
+  tree s' = tree s /\ disp_of s' = disp_of s /\ length (hs s') = length (hs s) /\
+  (forall h, h_signum (get s' h) = h_signum (get s h) /\ h_oneshot (get s' h) = h_oneshot (get s h) /\
+             h_active (get s' h) = h_active (get s h) /\ h_loop (get s' h) = h_loop (get s h) /\
+             h_closing (get s' h) = h_closing (get s h) /\ h_closed (get s' h) = h_closed (get s h)) /\
+  (forall h, h_loop (get s h) = l -> h_caught (get s' h) = 0 /\ h_dispatched (get s' h) = 0) /\
+  (forall h, h_loop (get s h) <> l ->
+             h_caught (get s' h) = h_caught (get s h) /\ h_dispatched (get s' h) = h_dispatched (get s h)).
+Proof. exact fork_fresh_pipe. Qed.
+Print Assumptions C13_fork_fresh_pipe.
+
+(* after the fork the two processes' deliveries are independent.  In the model the parent is the run
+   [prefix ++ parent ops], the child the run [prefix ++ OFork l :: child ops] (two runs without shared
+   state: run_app); every theorem of this file holds for both, because all of them quantify over
+   operation lists that may contain OFork.  In particular the child's handles of the loop start
+   afresh - nothing delivered, nothing consumed, nothing in flight - and from there on
+   C13_every_watcher_once pairs exactly the child's own deliveries with the child's own callbacks.
+   That the real child behaves like that run while the real parent runs its own loop is what the
+   fork family of the correspondence check decides (new pipe by inode, own deliveries only). *)
+Theorem C13_fork_child_starts_afresh :
+  forall fx fs fr beh fuel cap ops l h,
+  let s := run fx fs fr beh fuel (init cap) ops in
+  let s' := top fx fs fr beh fuel s (OFork l) in
+  h < length (hs s) -> h_loop (get s h) = l ->
+  delivered (tr s') h = [] /\ consumed (tr s') h = [] /\ psig s' h = [] /\ pending s' h = 0.
+Proof. exact fork_child_starts_afresh. Qed.
+Print Assumptions C13_fork_child_starts_afresh.
+
+(* when close_cb has run nothing names the handle any more - no message in any pipe or buffer, not in
+   the tree - in every run, with uv_stop() anywhere: its memory may be used for a new handle, which
+   then cannot get a callback for a signal raised before it was started *)
+Theorem C13_closed_handle_unreferenced :
+  forall fx fs fr beh fuel cap ops h,
+  let s := run fx fs fr beh fuel (init cap) ops in
+  h_closed (get s h) = true ->
+  psig s h = [] /\ (forall l m, In m (pipe_of s l) -> fst m <> h) /\ (forall m, In m (batch s) -> fst m <> h) /\
+  ~ In h (tree s).
+Proof. exact closed_handle_unreferenced. Qed.
+Print Assumptions C13_closed_handle_unreferenced.
+
+(* witness: uv_close + uv_stop in the iteration that caught a signal for the handle: the close is
+   deferred (the message is consumed by the next run), re-init is refused before close_cb, and
+   the new watcher in the same memory gets no callback for the old signal *)
+Theorem C13_close_stop_reuse_behaviour :
+  let beh := fun k => match k with 0 => [ORaise 10; OClose 0; OUvStop 0] | _ => [] end in
+  let s1 := run true true true beh 8 (init 16)
+              [OInit 0; OInit 0; OStart 0 10; OStart 1 12; ORaise 12; ORun 0] in
+  let s2 := run true true true beh 8 (init 16)
+              [OInit 0; OInit 0; OStart 0 10; OStart 1 12; ORaise 12; ORun 0; ORun 0; OReinit 0; OStart 0 10; ORun 0] in
+  (h_closed (get s1 0) = false /\ pending s1 0 = 1 /\ stopf s1 0 = false) /\
+  (count_cb 0 (tr s2) = 0 /\ h_signum (get s2 0) = 10 /\ h_active (get s2 0) = true /\ pending s2 0 = 0 /\
+   In (ECloseCb 0) (tr s2)).
+Proof. exact close_stop_reuse_behaviour. Qed.
+Print Assumptions C13_close_stop_reuse_behaviour.
 
 (* ---- the hypotheses are satisfiable: a reachable, non-trivial state ---- *)
 Example C13_example_run :
